@@ -21,6 +21,7 @@ Del(reg, S) == [x \in DOMAIN reg \ S |-> reg[x]]
 \* result of register(o, id, force, weak): [reg, out]
 DoRegister(reg, o, i, force, weak) ==
     IF IsClass(o) /\ weak THEN [reg |-> reg, out |-> "TypeError"]
+    ELSE IF i = "daemon" /\ ~force THEN [reg |-> reg, out |-> "DaemonError"]     \* the reserved id is always taken
     ELSE IF ~force /\ (i \in DOMAIN reg \/ Registered(reg, o)) THEN [reg |-> reg, out |-> "DaemonError"]
     ELSE [reg |-> Put(Del(reg, {j \in DOMAIN reg : reg[j].obj = o}), i, o, weak), out |-> "ok"]
 DoUnregisterId(reg, i) == Del(reg, {i})
@@ -48,6 +49,9 @@ RegisterGen(o, weak) ==
     /\ UNCHANGED held
 UnregisterId(i) == reg' = DoUnregisterId(reg, i) /\ UNCHANGED <<held, ngen>>
 UnregisterObj(o) == o \in held /\ reg' = DoUnregisterObj(reg, o) /\ UNCHANGED <<held, ngen>>
+\* attempts on the daemon's own object (by object, or an unforced registration under its id) change nothing
+UnregisterDaemonObj == UNCHANGED vars
+RegisterAsDaemon(o, weak) == o \in held /\ reg' = DoRegister(reg, o, "daemon", FALSE, weak).reg /\ UNCHANGED <<held, ngen>>
 \* the application lets go of an instance; if it was only weakly registered it disappears from the registry
 Gc(o) == /\ o \in held /\ ~IsClass(o) /\ (Registered(reg, o) => reg[IdOf(reg, o)].weak)
          /\ held' = held \ {o} /\ reg' = DoGc(reg, o) /\ UNCHANGED ngen
@@ -55,6 +59,8 @@ Next == \/ \E o \in Objects, i \in {"x", "y"}, f \in BOOLEAN, w \in BOOLEAN : Re
         \/ \E o \in Objects, w \in BOOLEAN : RegisterGen(o, w)
         \/ \E i \in {"x", "y", "g1", "daemon"} : UnregisterId(i)
         \/ \E o \in Objects : UnregisterObj(o) \/ Gc(o)
+        \/ UnregisterDaemonObj
+        \/ \E o \in Objects, w \in BOOLEAN : RegisterAsDaemon(o, w)
 Spec == Init /\ [][Next]_vars
 
 \* ---- property C16 (design level) ----
